@@ -711,19 +711,33 @@ def r6(ctx):
         loops = [n for n in walk_local(node) if isinstance(n, (ast.While, ast.For, ast.AsyncFor))
                  and any(isinstance(x, (ast.Yield, ast.YieldFrom)) for x in ast.walk(n))]
         stale = []
-        for name, v, st in name_stores(node):
-            if v is None:
-                continue
+        # locals derived from a swappable attribute of self, directly (`fetchone = self.cursor_strategy.fetchone`) or
+        # through other such locals (`strategy = self.cursor_strategy; fetchone = strategy.fetchone`): {id(store): ..}
+        stores = [(name, v, st) for name, v, st in name_stores(node) if v is not None]
+        derived = {}
+        for name, v, st in stores:
             reads = [x.attr for x in ast.walk(v) if isinstance(x, ast.Attribute) and isinstance(x.value, ast.Name)
                      and x.value.id == "self" and x.attr in swappable and not _is_getter_name(ctx, family, x.attr)]
-            if not reads:
-                continue
+            if reads:
+                derived[id(st)] = (name, st, reads[0], "")
+        grew = True
+        while grew:
+            grew = False
+            for name, v, st in stores:
+                if id(st) in derived:
+                    continue
+                loads = {x.id for x in ast.walk(v) if isinstance(x, ast.Name) and isinstance(x.ctx, ast.Load)}
+                src = next((d for d in derived.values() if d[0] in loads and d[1] is not st), None)
+                if src is not None:
+                    derived[id(st)] = (name, st, src[2], f" (from `{unparse(src[1])}`)")
+                    grew = True
+        for name, st, attr, via in derived.values():
             for lp in loops:
                 inside = any(s is st for s in ast.walk(lp))
                 used = any(isinstance(x, ast.Name) and x.id == name and isinstance(x.ctx, ast.Load) for x in ast.walk(lp))
                 if used and not inside:
-                    stale.append(f"`{unparse(st)}` is bound once but used after every `yield` of the loop at line "
-                                 f"{lp.lineno}, while self.{reads[0]} is re-assigned by {swappable[reads[0]]}")
+                    stale.append(f"`{unparse(st)}`{via} is bound once but used after every `yield` of the loop at line "
+                                 f"{lp.lineno}, while self.{attr} is re-assigned by {swappable[attr]}")
         ctx.check(not stale, f"{key}:no-stale-delegate-across-yield",
                   "; ".join(stale) + ": an iterator created before that call keeps using the old object (rows out of "
                                      "order / lost when mixed with fetchone()/fetchmany() on the same result)",
@@ -732,6 +746,215 @@ def r6(ctx):
 
 def _is_getter_name(ctx, family, name):
     return any(name in c.methods and _is_memoized(c.methods[name]) for c in family)
+
+
+# ---------------------------------------------------------------------------------------- R7
+# unique(): ONE set of already-delivered hashes (`_unique_filter_state[0]`) is shared by every access path of a result
+# (iteration, fetchone/next, fetchmany/partitions, all).  The paths agree on duplicates only if every one of them tests /
+# stores the SAME kind of object: the row as made by the row getter (passed through the uniquing strategy), never the
+# value the post-creational filter (scalar / mapping projection) makes of it -- hash((1,)) != hash(1), Row != RowMapping.
+# Decided as a data-flow property on reaching definitions (names, statement shapes, helper extraction do not matter):
+# which atoms the value handed to `<uniques>.add(..)` / `.. in <uniques>` is computed from.
+UNIQ_ATTRS = ("_unique_strategy", "_unique_filter_state")
+POST_ATTR = "_post_creational_filter"
+ROW_ATTR = "_row_getter"
+_SET_STORES = ("add", "update", "discard", "remove", "__contains__")
+
+
+class _UniqScan:
+    """Sinks of the shared uniques set in one function (a getter, one of its closures, a followed helper)."""
+
+    def __init__(self, ctx, scope, freemap, uniq_params=()):
+        self.ctx, self.sc, self.free, self.uniq_params = ctx, scope, freemap, set(uniq_params)
+        self.pm = None
+
+    # -- is this expression the shared set?
+    def _is_state(self, e, at) -> bool:
+        """`self._unique_strategy` / `self._unique_filter_state` (the (set, strategy) pair)"""
+        d = self.sc.deps(e, at)
+        return bool(d) and d <= {"self." + a for a in UNIQ_ATTRS} and isinstance(e, (ast.Attribute, ast.Name))
+
+    def is_uniques(self, e, at) -> bool:
+        if isinstance(e, ast.Subscript):
+            return isinstance(e.slice, ast.Constant) and e.slice.value == 0 and self._is_state(e.value, at)
+        if not isinstance(e, ast.Name):
+            return False
+        if not self.sc.rd.at(at, e.id):
+            return self.free.get(e.id, (None, None))[0] == "uniques"
+        orig = self.sc.origins(e, at)
+        if not orig:
+            return False
+        for kind, d, dn in orig:
+            if kind == "def":
+                if d.kind == "param":
+                    if d.name not in self.uniq_params:
+                        return False
+                elif d.kind == "assign" and d.path == (0,) and self._is_state(d.value, d.node):
+                    pass
+                else:
+                    return False
+            else:
+                if isinstance(d, ast.Name) and not self.sc.rd.at(dn, d.id):
+                    if self.free.get(d.id, (None, None))[0] != "uniques":
+                        return False
+                elif not (isinstance(d, ast.Subscript) and self.is_uniques(d, dn)):
+                    return False
+        return True
+
+    # -- atoms of a value, closure variables replaced by what the enclosing getter bound them to
+    def atoms(self, e, at, cenv=None):
+        out = set()
+        for a in self.sc.deps(e, at, False, cenv):
+            kind, _, name = a.partition(":")
+            if kind in ("global", "call") and name in self.free:
+                role, outer_atoms = self.free[name]
+                out |= {(f"call:{x}" if kind == "call" else x) for x in outer_atoms}
+            else:
+                out.add(a)
+        return out
+
+    def _cenv(self, node, at):
+        """comprehension variables in scope at `node`"""
+        if self.pm is None:
+            self.pm = {}
+            for p in ast.walk(self.sc.fn):
+                for ch in ast.iter_child_nodes(p):
+                    self.pm[ch] = p
+        comps = []
+        cur = self.pm.get(node)
+        while cur is not None and cur is not self.sc.fn:
+            if isinstance(cur, (ast.ListComp, ast.SetComp, ast.GeneratorExp, ast.DictComp)):
+                comps.append(cur)
+            cur = self.pm.get(cur)
+        env = None
+        for c in reversed(comps):
+            env = self.sc.comp_env(c, at, False, env)
+        return env
+
+    def sinks(self, depth=0):
+        """[(text of the sink, atoms of the value that is hashed into / looked up in the set, lineno)]"""
+        out = []
+        sc = self.sc
+        for n in sc.local_walk():
+            at = sc.node_of(n)
+            if at is None or not sc.rd.reachable(at):
+                continue
+            if isinstance(n, ast.Compare):
+                left = n.left
+                for op, right in zip(n.ops, n.comparators):
+                    if isinstance(op, (ast.In, ast.NotIn)) and self.is_uniques(right, at):
+                        out.append((unparse(n), self.atoms(left, at, self._cenv(n, at)), n.lineno))
+                    left = right
+            elif isinstance(n, ast.Call):
+                if isinstance(n.func, ast.Attribute) and n.func.attr in _SET_STORES and self.is_uniques(n.func.value, at):
+                    cenv = self._cenv(n, at)
+                    for a in n.args:
+                        out.append((unparse(n), self.atoms(a, at, cenv), n.lineno))
+                    continue
+                passed = [i for i, a in enumerate(n.args) if self.is_uniques(a, at)]
+                passed_kw = [k.arg for k in n.keywords if k.arg and self.is_uniques(k.value, at)]
+                if not passed and not passed_kw:
+                    continue
+                sub_ = sc.sub_scope(n, at) if depth < 2 else None
+                self.ctx.require(sub_ is not None, f"{sc.name}: the shared uniques set is handed to `{unparse(n.func)}(..)`, "
+                                                   f"which cannot be followed")
+                ps = list(sub_.params)
+                if sub_.selfname is not None and isinstance(n.func, ast.Attribute):
+                    ps = ps[1:]
+                names = {ps[i] for i in passed if i < len(ps)} | set(passed_kw)
+                inner = _UniqScan(self.ctx, sub_, {}, names)
+                for text, atoms, ln in inner.sinks(depth + 1):
+                    # the helper's atoms are the caller's atoms of the arguments: translate closure variables here
+                    tr = set()
+                    for a in atoms:
+                        kind, _, name = a.partition(":")
+                        if kind in ("global", "call") and name in self.free:
+                            tr |= {(f"call:{x}" if kind == "call" else x) for x in self.free[name][1]}
+                        else:
+                            tr.add(a)
+                    out.append((f"{unparse(n.func)}(..): {text}", tr, n.lineno))
+        return out
+
+
+def _free_roles(outer, closure, at):
+    """{free variable of `closure`: (role, atoms in the enclosing getter at the closure's definition)}"""
+    bound = set(outer.params)
+    out = {}
+    names = {x.id for x in ast.walk(closure) if isinstance(x, ast.Name)}
+    for nm in names:
+        ds = outer.rd.at(at, nm)
+        if not ds:
+            continue
+        atoms = frozenset()
+        role = None
+        for d in ds:
+            atoms = atoms | outer._def_deps(d, False)
+        state = {"self." + a for a in UNIQ_ATTRS}
+        if atoms and atoms <= state:
+            role = "uniques" if all(d.kind == "assign" and d.path == (0,) for d in ds) else "strategy"
+        out[nm] = (role, atoms)
+    return out
+
+
+@R.rule("C10-R7", floor=4, template="T-SIBLING/T-FLOW",
+        desc="every access path that de-duplicates (the iterrows / onerow / manyrows closures of the memoized getters, "
+             "_allrows, through _apply_unique_strategy or inline) tests and stores in the SHARED uniques set the row as made "
+             "by the row getter -- a value computed from self._row_getter and never through self._post_creational_filter; "
+             "the post-creational filter is applied to rows that already passed the uniqueness test")
+def r7(ctx):
+    from ._helpers_rob_c2 import Scope
+    family = _result_family(ctx)
+    post = "self." + POST_ATTR
+    make = "self." + ROW_ATTR
+    found = []      # (key, FuncInfo, node, sinks)
+    for c in family:
+        for f in c.methods.values():
+            if f.type_only:
+                continue
+            if not any(isinstance(x, ast.Attribute) and x.attr in UNIQ_ATTRS for x in ast.walk(f.node)):
+                continue
+            outer = Scope(ctx, f)
+            own = _UniqScan(ctx, outer, {}).sinks()
+            if own:
+                found.append((f.key, f, f.node, own))
+            for n in ast.walk(f.node):
+                if not isinstance(n, (ast.FunctionDef, ast.AsyncFunctionDef)) or n is f.node:
+                    continue
+                at = next(iter(outer.g.nodes_for(n)), None)
+                if at is None:
+                    continue
+                ps = [a.arg for a in n.args.posonlyargs + n.args.args]
+                inner = Scope(ctx, n, module=f.module, cls=f.cls if ps and f.params and ps[0] == f.params[0] else None)
+                sk = _UniqScan(ctx, inner, _free_roles(outer, n, at)).sinks()
+                if sk:
+                    found.append((f"{f.key}.{n.name}[unique]", f, n, sk))
+    from ._helpers_rules_b import ordinal_keys
+    ctx.require(found, "no function tests or fills the shared uniques set: re-derive C10-R7")
+    names = [k.rsplit("::", 1)[-1] for k, *_ in found]
+    for key, (k0, f, node, sinks) in ordinal_keys(found, lambda t: t[0]):
+        ctx.functions_analysed.add(f.key)
+        late = [(t, ln) for t, atoms, ln in sinks if any(a == post or a == "call:" + post for a in atoms)]
+        raw = [(t, ln, atoms) for t, atoms, ln in sinks if not any(a == make or a == "call:" + make for a in atoms)]
+        others = [n for n in names if n != k0.rsplit("::", 1)[-1]]
+        loc = f"{f.module.path}:{node.lineno}"
+        if late:
+            ctx.violation(f"{key}:hashes-the-made-row",
+                          "; ".join(f"`{t}` (line {ln})" for t, ln in late[:3]) + ": the value tested against / stored in the "
+                          f"shared uniques set has passed through self.{POST_ATTR} (scalar / mapping projection), while the other "
+                          f"access paths ({', '.join(others)}) hash the row as made by the row getter -- a row delivered by one "
+                          "access method is then not recognised as a duplicate by the others (unique() delivers rows twice "
+                          "when iteration is mixed with next()/fetchmany()/all())", loc)
+        elif raw:
+            unknown = sorted({a for _, _, atoms in raw for a in atoms if a.startswith("call:") and "_fetch" not in a
+                              and a not in ("call:<local>",) and not any(a.endswith(u) for u in UNIQ_ATTRS)})
+            ctx.require(not unknown, f"{key}: cannot tell whether `{raw[0][0]}` hashes a made row (computed through {unknown})")
+            ctx.violation(f"{key}:hashes-the-made-row",
+                          "; ".join(f"`{t}` (line {ln})" for t, ln, _ in raw[:3]) + ": the value tested against / stored in the "
+                          f"shared uniques set is not computed from self.{ROW_ATTR} (it is the raw fetched row), while the other "
+                          f"access paths ({', '.join(others)}) hash the made row", loc)
+        else:
+            ctx.ok(f"{key}:hashes-the-made-row", f"{len(sinks)} test/store site(s) of the uniques set, all on the made row "
+                                                 f"before the post-creational filter")
 
 
 # ---------------------------------------------------------------------- self-test battery
@@ -910,3 +1133,74 @@ R.mutant("benign-e1-r6-strategy-local-inside-loop", "engine/cursor.py",
 R.mutant("r6-fetchiter-caches-strategy-outside-loop", "engine/cursor.py",
          sub(_ITER, "        fetchone = self.cursor_strategy.fetchone\n\n        while True:\n            row = fetchone(self, self.cursor)\n"
                     "            if row is None:\n                break\n            yield row\n"), "C10-R6")
+
+# ---- R7 (round-2 seed C10/2 and its class: which object is hashed into the shared uniques set)
+_IT_UNIQ = ("                    hashed = strategy(row) if strategy is not None else row\n                    if hashed in uniques:\n"
+            "                        continue\n                    uniques.add(hashed)\n"
+            "                    if post_creational_filter is not None:\n                        row = post_creational_filter(row)\n"
+            "                    yield row\n")
+_ONE_UNIQ = ("                        hashed = strategy(obj) if strategy is not None else obj\n                        if hashed in uniques:\n"
+             "                            continue\n                        uniques.add(hashed)\n"
+             "                        if post_creational_filter is not None:\n                            obj = post_creational_filter(obj)\n"
+             "                        return obj  # type: ignore[return-value]\n")
+_ALL_UNIQ = ("            interim_rows = _apply_unique_strategy(\n                made_rows, [], uniques, strategy\n            )\n")
+_MANY_TOPUP = ("                    made_rows = rows if make_rows is None else make_rows(rows)\n                    _apply_unique_strategy(\n"
+               "                        made_rows, collect, uniques, strategy\n                    )\n                    num_required = num - len(collect)\n")
+_SEEN_HELPER_AT = "@cython.inline\n@cython.cfunc\ndef _apply_unique_strategy("
+_SEEN_HELPER = ("def _seen_before(row: Any, uniques: set[Any], strategy: Any) -> bool:\n"
+                "    key = strategy(row) if strategy is not None else row\n    if key in uniques:\n        return True\n"
+                "    uniques.add(key)\n    return False\n\n\n")
+R.mutant("r7-seed-iterrows-filters-before-hashing", CY,
+         sub(_IT_UNIQ, "                    if post_creational_filter is not None:\n                        row = post_creational_filter(row)\n"
+                       "                    hashed = strategy(row) if strategy is not None else row\n                    if hashed in uniques:\n"
+                       "                        continue\n                    uniques.add(hashed)\n                    yield row\n"), "C10-R7")
+R.mutant("r7-onerow-filters-before-hashing", CY,
+         sub(_ONE_UNIQ, "                        if post_creational_filter is not None:\n                            obj = post_creational_filter(obj)\n"
+                        "                        hashed = strategy(obj) if strategy is not None else obj\n                        if hashed in uniques:\n"
+                        "                            continue\n                        uniques.add(hashed)\n"
+                        "                        return obj  # type: ignore[return-value]\n"), "C10-R7")
+R.mutant("r7-allrows-uniques-the-filtered-values", CY,
+         sub(_ALL_UNIQ, "            if post_creational_filter is not None:\n                made_rows = [post_creational_filter(r) for r in made_rows]\n"
+                        "                post_creational_filter = None\n" + _ALL_UNIQ), "C10-R7")
+R.mutant("r7-manyrows-top-up-uniques-the-filtered-values", CY,
+         sub(_MANY_TOPUP, "                    made_rows = rows if make_rows is None else make_rows(rows)\n"
+                          "                    filtered = (\n                        made_rows\n                        if post_creational_filter is None\n"
+                          "                        else [post_creational_filter(r) for r in made_rows]\n                    )\n"
+                          "                    _apply_unique_strategy(\n                        filtered, collect, uniques, strategy\n                    )\n"
+                          "                    num_required = num - len(collect)\n"), "C10-R7")
+R.mutant("r7-iterrows-hashes-the-raw-row", CY,
+         sub("                    hashed = strategy(row) if strategy is not None else row\n                    if hashed in uniques:\n                        continue\n",
+             "                    hashed = raw_row\n                    if hashed in uniques:\n                        continue\n"), "C10-R7")
+R.mutant("r7-seen-helper-given-filtered-row", CY,
+         chain(sub(_IT_UNIQ, "                    if post_creational_filter is not None:\n                        row = post_creational_filter(row)\n"
+                             "                    if _seen_before(row, uniques, strategy):\n                        continue\n                    yield row\n"),
+               sub(_SEEN_HELPER_AT, _SEEN_HELPER + _SEEN_HELPER_AT)), "C10-R7")
+R.mutant("benign-r7-seen-helper", CY,
+         chain(sub(_IT_UNIQ, "                    if _seen_before(row, uniques, strategy):\n                        continue\n"
+                             "                    if post_creational_filter is not None:\n                        row = post_creational_filter(row)\n"
+                             "                    yield row\n"),
+               sub(_ONE_UNIQ, "                        if _seen_before(obj, uniques, strategy):\n                            continue\n"
+                              "                        if post_creational_filter is not None:\n                            obj = post_creational_filter(obj)\n"
+                              "                        return obj  # type: ignore[return-value]\n"),
+               sub(_SEEN_HELPER_AT, _SEEN_HELPER + _SEEN_HELPER_AT)), None)
+R.mutant("benign-r7-aliases-and-inverted-filter-branch", CY,
+         sub(_IT_UNIQ, "                    seen = uniques\n                    made = row\n"
+                       "                    key = strategy(made) if strategy is not None else made\n                    if key in seen:\n"
+                       "                        continue\n                    seen.add(key)\n"
+                       "                    if post_creational_filter is None:\n                        yield made\n"
+                       "                    else:\n                        yield post_creational_filter(made)\n"), None)
+R.mutant("benign-r7-iterrows-through-apply-unique-strategy", CY,
+         sub(_IT_UNIQ, "                    if not _apply_unique_strategy([row], [], uniques, strategy):\n                        continue\n"
+                       "                    if post_creational_filter is not None:\n                        row = post_creational_filter(row)\n"
+                       "                    yield row\n"), None)
+R.mutant("benign-r7-allrows-filter-through-local-alias", CY,
+         sub("        if post_creational_filter is not None:\n            interim_rows = [\n                post_creational_filter(row) for row in interim_rows\n            ]\n        return interim_rows\n",
+             "        pcf = post_creational_filter\n        if pcf is None:\n            return interim_rows\n        return [pcf(row) for row in interim_rows]\n"), None)
+# ---- R6 (round-2 seed C10/1 = r6-fetchiter-caches-strategy-outside-loop; the same edit written with an intermediate local)
+R.mutant("r6-fetchiter-caches-strategy-through-two-locals", "engine/cursor.py",
+         sub(_ITER, "        strategy = self.cursor_strategy\n        fetchone = strategy.fetchone\n        while True:\n"
+                    "            row = fetchone(self, self.cursor)\n            if row is None:\n                break\n            yield row\n"), "C10-R6")
+R.mutant("benign-r6-two-locals-inside-loop", "engine/cursor.py",
+         sub(_ITER, "        while True:\n            strategy = self.cursor_strategy\n"
+                    "            fetchone = strategy.fetchone\n            row = fetchone(self, self.cursor)\n"
+                    "            if row is None:\n                break\n            yield row\n"), None)
